@@ -18,7 +18,7 @@ TECHNIQUE = "deterministic simulation over the detector's own virtual readout cl
 LEVEL_TEXT = "seeded exploration of clock partitions x model combinations x level / time-scale arguments x geometries; a metamorphic relation over the time seam. The partition is a configuration value, not an uncontrolled schedule: this is claimed at exploration level with that limit stated"
 LEVEL_NOTE = "trusted: relative tolerance 1e-9 (different summation order); only deterministic model settings are generated (noise-free dark current, expectation-value photo-conversion)"
 RULE = (
-    "scenario = detector + subset of {illumination(uniform|rectangular|elliptic), stripe_pattern, load_image(file), load_charge(file), dark_current(temporal_noise=False), simple_conversion(binomial_sampling=False), simple_collection} + interval (start, end] + two partitions; "
+    "scenario = detector (CCD, CMOS, MKID, APD) + subset of {illumination(uniform|rectangular|elliptic), stripe_pattern, load_image(file), load_charge(file), dark_current(temporal_noise=False), simple_conversion(binomial_sampling=False), simple_collection} + interval (start, end] + two partitions; "
     "distinct = distinct (model set, partition sizes, mode); non-trivial = the two partitions have different numbers of readouts and at least two flux sources are combined"
 )
 ASSUMPTIONS = [
@@ -27,7 +27,7 @@ ASSUMPTIONS = [
 ]
 COMPONENTS = {"real": ["pyxel exposure/readout", "illumination, stripe_pattern, load_image, load_charge, dark_current, simple_conversion, simple_collection", "scratch filesystem for input files"], "stub": []}
 BUDGET = {"quick": {"n": 480, "wall": 100, "determinism": 4}, "thorough": {"n": 60000, "wall": 1500, "determinism": 12}}
-REQUIRED_REACH = ["mode:nd", "mode:destructive", "model:illumination", "model:stripe_pattern", "model:load_image", "model:load_charge", "model:dark_current", "partition:short-first", "partition:long-last", "partition:uniform", "partition:random", "nonzero_start", "twelve_readouts"]
+REQUIRED_REACH = ["type:CCD", "type:CMOS", "type:MKID", "type:APD", "mode:nd", "mode:destructive", "model:illumination", "model:stripe_pattern", "model:load_image", "model:load_charge", "model:dark_current", "partition:short-first", "partition:long-last", "partition:uniform", "partition:random", "nonzero_start", "twelve_readouts"]
 
 
 def gen_partition(rng, start, end, n, kind):
@@ -50,9 +50,9 @@ def gen_partition(rng, start, end, n, kind):
 
 
 def generate(rng, tier):
-    det = world.gen_detector(rng, types=("CCD", "CMOS"))
+    det = world.gen_detector(rng, types=("CCD", "CMOS", "CCD", "CMOS", "MKID", "APD"))
     det["row"], det["col"] = rng.randint(3, 8), rng.randint(3, 8)
-    det["temperature"] = rng.choice([150.0, 200.0, 250.0])
+    det["temperature"] = rng.choice([150.0, 200.0, 250.0]) if det["type"] != "APD" else rng.choice([60.0, 80.0, 100.0])
     start = rng.choice([0.0, 0.0, 0.5, -1.0, 3.0])
     end = start + rng.choice([1.0, 2.5, 10.0, 60.0])
     if end == 0:
@@ -75,7 +75,7 @@ def generate(rng, tier):
         cg.append(("charge_generation", "simple_conversion", {"quantum_efficiency": rng.choice([0.3, 0.8, 1.0]), "binomial_sampling": False}))
     if rng.random() < 0.4:
         cg.append(("charge_generation", "load_charge", {"filename": "@charge", "position": [0, 0], "time_scale": rng.choice([1.0, 2.0])}))
-    if rng.random() < 0.4:
+    if rng.random() < 0.4 and det["type"] in ("CCD", "CMOS"):
         cg.append(("charge_generation", "dark_current", {"figure_of_merit": rng.choice([0.5, 2.0]), "band_gap": 1.12, "band_gap_room_temperature": 1.12, "temporal_noise": False}))
     if not cg and not has_photon:
         cg.append(("charge_generation", "load_charge", {"filename": "@charge", "position": [0, 0], "time_scale": 1.0}))
@@ -130,6 +130,7 @@ def execute(scn):
     viol, stats = [], {}
     rows, cols = scn["detector"]["row"], scn["detector"]["col"]
     names = [m[1] for m in scn["models"]]
+    stats["type:" + scn["detector"]["type"]] = 1
     for n in names:
         stats["model:" + n] = 1
     stats["partition:" + scn["p1"]["kind"]] = 1
